@@ -250,6 +250,8 @@ fn take_both_ends<E: Elem>(it: &mut (impl Iterator<Item = E> + DoubleEndedIterat
             Some(e) => out.push(e.val()),
             None => break,
         }
+        // consumer code that may panic while the iterator still owns the rest
+        tr::burn();
     }
     let mut back = Vec::new();
     for _ in 0..j {
@@ -257,6 +259,7 @@ fn take_both_ends<E: Elem>(it: &mut (impl Iterator<Item = E> + DoubleEndedIterat
             Some(e) => back.push(e.val()),
             None => break,
         }
+        tr::burn();
     }
     back.reverse();
     out.extend(back);
@@ -436,6 +439,7 @@ where
                                         Some(e) => out.push(e.val()),
                                         None => break,
                                     }
+                                    tr::burn();
                                 }
                             }
                             out.push(u32::MAX);
